@@ -461,6 +461,14 @@ func (c *Check) scaleProfilesPairing() {
 			// every store into ratios: slot i holds Scale(1, unit of column i of this profile, common unit of column i)
 			bad := ""
 			stores := 0
+			// slots of the factor list: indexed stores, or the one append per iteration of
+			// the column loop when the list is grown instead
+			type slot struct {
+				idx ssa.Value      // index expression (indexed store), nil for an append
+				hdr *ssa.BasicBlock // header of the loop around an append
+				val ssa.Value
+			}
+			var slots []slot
 			for _, b2 := range b.Parent().Blocks {
 				for _, i2 := range b2.Instrs {
 					st, ok := i2.(*ssa.Store)
@@ -471,11 +479,32 @@ func (c *Check) scaleProfilesPairing() {
 					if !ok || ia.X != ratios {
 						continue
 					}
+					slots = append(slots, slot{ia.Index, nil, st.Val})
+				}
+			}
+			for _, hs := range harvestSites(b.Parent()) {
+				if app, isCall := hs.ins.(*ssa.Call); isCall && (ssa.Value(app) == ratios || phiReaches(ratios, app, map[ssa.Value]bool{})) {
+					slots = append(slots, slot{nil, loopHeaderAround(app.Block()), hs.val})
+				}
+			}
+			sameSlot := func(sl slot, idx ssa.Value) bool {
+				if sl.idx != nil {
+					return idx == sl.idx
+				}
+				h := loopHeaderOfIndex(idx)
+				return h != nil && h == sl.hdr
+			}
+			for _, sl := range slots {
+				vals := []ssa.Value{sl.val}
+				if ph, isPhi := sl.val.(*ssa.Phi); isPhi {
+					vals = ph.Edges
+				}
+				for _, val := range vals {
 					stores++
-					if k, ok := st.Val.(*ssa.Const); ok && k.Value != nil && k.Value.ExactString() == "1" {
+					if k, ok := val.(*ssa.Const); ok && k.Value != nil && (k.Value.ExactString() == "1" || k.Value.String() == "1") {
 						continue // no common type for this column: left as is
 					}
-					ex, ok := st.Val.(*ssa.Extract)
+					ex, ok := val.(*ssa.Extract)
 					if !ok {
 						bad = "a factor is not the result of Scale"
 						continue
@@ -508,7 +537,7 @@ func (c *Check) scaleProfilesPairing() {
 					switch {
 					case !okF || !okT:
 						bad = "the units handed to Scale are not the column's own unit and the common unit of a column"
-					case fromIdx != ia.Index || toIdx != ia.Index:
+					case !sameSlot(sl, fromIdx) || !sameSlot(sl, toIdx):
 						bad = "the factor stored in slot i is computed from the units of a different column"
 					default:
 						if ld, ok := fromArr.(*ssa.UnOp); !ok || ld.Op != token.MUL {
